@@ -191,3 +191,20 @@ def corpus():
     c += [("a", d) for d in declarations()] + [("a", u) for u in units()]
     c += [("a", "\n".join(declarations()[i::17])) for i in range(17)]
     return c
+
+
+def extension_corpus():
+    """forms that need non-default switches (every extension / translation on): the node kinds the default corpus cannot reach"""
+    return [("a", t) for t in [
+        "void f ( void ) { x = __real__ z + __imag__ z ; __real__ z = 1 ; __imag__ ( z ) ++ ; }",
+        "void f ( void ) { __asm__ inline ( \"nop\" ) ; __asm__ volatile goto ( \"x\" : : : : L ) ; L : ; }",
+        "void f ( void ) { x = true ; y = false ; p = NULL ; if ( p == NULL && ! true ) return ; }",
+        "_Template void f ( void ) ;",
+        "_Forall ( T ) x ; _Exists ( T ) y ;",
+        "int f ( a , b ) int a ; char b ; { return a ; }",
+        "int g ( a , b , c ) int a , c ; char * b ; { return a + c ; }",
+        "struct s { int a : 3 , : 0 , b : 1 ; } ;",
+        "void f ( void ) { q = nullptr ; char16_t c16 ; char32_t c32 ; wchar_t w ; }",
+        "void f ( void ) { x = __builtin_choose_expr ( 1 , a , b ) ; y = __builtin_offsetof ( struct s , a ) ; }",
+        "void f ( void ) { __typeof__ ( x ) y ; __typeof__ ( int * ) p ; _Alignas ( 8 ) int z ; }",
+    ]]
